@@ -135,6 +135,9 @@ structure Cfg where
   /-- `maxNestingDepth`: `parseValue` refuses to open a list or object when this
       many are already open (`none`: no limit) -/
   depthLimit : Option Nat := none
+  /-- the sign case of `parseValue` parses its operand with a recursive
+      `parseValue` call (instead of looking at the next token itself) -/
+  signRecursive : Bool := false
   deriving Repr
 
 /-- `p.depth >= maxNestingDepth` -/
@@ -279,7 +282,14 @@ def parseValue (c : Cfg) : Nat → Nat → PS → Res PS
       .ok ((s.next c).leaf c "jsonx.floatLit" t)
     else if s.seeOp '+' || s.seeOp '-' then
       let s := s.next c
-      if s.see .int then .ok (s.next c)
+      if c.signRecursive then
+        -- variant: one recursion level per sign, not counted by the nesting limit;
+        -- the result is accepted when it is an unsigned number
+        let t := s.cur
+        let good := s.see .int || s.see .float
+        (parseValue c n d s).bind fun s2 =>
+        .ok (if good then s2 else s2.errAt c "jsonx.expectNumber" t)
+      else if s.see .int then .ok (s.next c)
       else if s.see .float then
         let t := s.cur
         let s := s.next c
